@@ -97,7 +97,7 @@ func GenByteString(t *rapid.T, label string) string {
 	case 0:
 		return string(rapid.SliceOfN(rapid.Byte(), 0, 8).Draw(t, label+"-bytes"))
 	case 1:
-		return rapid.SampledFrom([]string{"", " ", "\"", "\\", "`", "a\"b\\c", "new\nline", "tab\t", "{}", "|=", "#not a comment", "é世", "\x00", "\xff\xfe", "' single '", "{{.x}}"}).Draw(t, label+"-special")
+		return rapid.SampledFrom([]string{"", " ", "\"", "\\", "`", "a\"b\\c", "new\nline", "cr\r\nlf", "\r", "tab\t", "{}", "|=", "#not a comment", "é世", "\x00", "\xff\xfe", "' single '", "{{.x}}"}).Draw(t, label+"-special")
 	default:
 		return rapid.StringMatching(`[a-zA-Z0-9 _./:-]{0,12}`).Draw(t, label+"-plain")
 	}
